@@ -271,4 +271,8 @@ def run(ctx):
         run.instance(R6, {"fn": "OutputData::lock / cancel_tx_and_outputs", "obligation": "lock() remembers the previous status (or reserves Unspent outputs only), or the rollback does not write a constant", "lock writes": sorted(written), "rollback writes": sorted(map(str, consts))}, held=held)
         if not held:
             run.finding(Finding(R6, cf6.id, "an output reserved while still Unconfirmed (zero-confirmation spend) is written back as Unspent when the send is cancelled, and a refresh in between marks the never-mined reserved output Spent: cancelling is not a rollback for it", site=cf6.loc()))
+    R7 = "C05.R7"
+    run.rule(R7, "a cancel releases only what its own transaction holds: a coin that another pending transaction has reserved cannot be reserved a second time (the rollback turns every Locked record of the entry into Unspent, and the record's single tx_log_entry link would point at the later entry)", floor=2)
+    from .shared import reservation_recheck
+    reservation_recheck(ctx, R7)
     run.not_decided += ["'exactly what they were before' as an equality of balances (numeric, over histories)"]
